@@ -311,16 +311,19 @@ theorem truncated_index_never_wrong (ns : NewSsi) (h : ns.WF) (cur : Option Byte
     (hf : s'.findName key = .ok hit) :
     ∃ k ∈ ns.pkeys, hit = ⟨k.fnum, k.roff, k.doff, k.len⟩ ∧ (k.key = key ∨ ∃ a ∈ ns.skeys, a.key = key ∧ a.pkey = k.key) := by
   obtain ⟨hd, rfl⟩ := written_file ns h cur bytes hw
-  have hsub := sub_take ns.image n
-  have hopen := hsub.mono_open s' ho
-  rw [open_image h] at hopen
-  have e : ns.opened = { s' with data := ns.image.toArray } := by injection hopen
-  have hdata : s'.data = (ns.image.take n).toArray := ((open_status _).2 s' ho).1
-  have g : SameGeometry s' ns.opened :=
-    { sub := by rw [hdata]; exact hsub
-      offsz := by rw [e], nprimary := by rw [e], nsecondary := by rw [e], plen := by rw [e], slen := by rw [e],
-      precsize := by rw [e], srecsize := by rw [e], poffset := by rw [e], soffset := by rw [e] }
+  have g := (trunc_geometry h n s' ho).1
   exact resolves_image h hd htg key hit (g.resolves key hit (findName_sound s' FUEL key hit hf))
+
+/-- ... and enumerates / describes nothing wrong either: on the file cut after ANY `n` bytes (if `Open` still accepts it)
+    every `eslOK` answer of `FindNumber` is the answer the intact index gives for that number (`findNumber_sorted`), and
+    `FileInfo` answers exactly like the intact index for every handle (`fileInfo_spec`) -/
+theorem truncated_index_same_answers (ns : NewSsi) (h : ns.WF) (cur : Option Bytes) (bytes : Bytes)
+    (hw : (ns.write cur).2.2 = some bytes) (n : Nat) (s' : Ssi) (ho : Ssi.open (bytes.take n).toArray = .ok s') :
+    (∀ i r, s'.findNumber i = .ok r → (Ssi.open bytes.toArray).bind (·.findNumber i) = .ok r) ∧
+    (∀ fh, s'.fileInfo fh = (Ssi.open bytes.toArray).bind (·.fileInfo fh)) := by
+  obtain ⟨_, rfl⟩ := written_file ns h cur bytes hw
+  rw [open_image h]
+  exact ⟨fun i r hr => (trunc_geometry h n s' ho).1.findNumber i r hr, fun fh => trunc_fileInfo h n s' ho fh⟩
 
 /-! ## `esl_newssi_AddFile` and duplicate names -/
 
